@@ -104,6 +104,16 @@ def build_reader(case, data, tmpdir, cls=AudioReader, record=None):
     kw = dict(block_dur=block_dur, hop_dur=hop_dur, max_read=max_read)
     if cls is AudioReader:
         kw["record"] = case["record"] if record is None else record
+    if case["seed"] % 4 == 2:
+        # the documented positional order: AudioReader(input, block_dur, hop_dur, record, max_read), Recorder(input, block_dur, hop_dur, max_read)
+        real_cls, kw_ = cls, kw
+        pos = (kw_["block_dur"], kw_["hop_dur"], kw_["record"], kw_["max_read"]) if cls is AudioReader else (kw_["block_dur"], kw_["hop_dur"], kw_["max_read"])
+
+        def cls(input_, **rest):
+            for k in ("block_dur", "hop_dur", "max_read", "record"):
+                rest.pop(k, None)
+            return real_cls(input_, *pos, **rest)
+
     ap = dict(sampling_rate=rate, sample_width=width, channels=channels)
     old_stdin = sys.stdin
 
